@@ -40,6 +40,7 @@ type e2eMotion struct {
 }
 type e2eInput struct {
 	Format, Model      string
+	Prelude            *e2eInput `json:",omitempty"` // an earlier connection served by the same process
 	W, H, FPS          int
 	Serial             int
 	Firmware           string
@@ -336,66 +337,94 @@ func e2eRun(in e2eInput) e2eObs {
 	os.Mkdir(out, 0755)
 	sock := filepath.Join(dir, "s")
 	ioutil.WriteFile(filepath.Join(dir, "config.toml"), []byte(in.toml(out, sock)), 0644)
-	d := startDriver(buildDir()+"/tr-driver", "serve", dir+" 1 1", "TZ=UTC")
+	nconn := 1
+	if in.Prelude != nil {
+		nconn = 2
+	}
+	d := startDriver(buildDir()+"/tr-driver", "serve", fmt.Sprintf("%s %d 1", dir, nconn), "TZ=UTC")
 	defer func() { d.in.Close(); d.cmd.Wait() }()
-	for {
-		line, err := d.out.ReadString('\n')
+	// one connection: wait for the listener, send the camera header and the frames, close, wait for the end
+	session := func(in e2eInput) (connErr, why string) {
+		for {
+			line, err := d.out.ReadString('\n')
+			if err != nil {
+				return "", "driver died before listening: " + line
+			}
+			if strings.Contains(line, "listening") {
+				break
+			}
+			if strings.Contains(line, "error") {
+				return "", "driver: " + line
+			}
+		}
+		conn, err := net.Dial("unix", sock)
 		if err != nil {
-			o.Why = "driver died before listening: " + line
-			return o
+			return "", err.Error()
 		}
-		if strings.Contains(line, "listening") {
-			break
+		frameSize := 2 * in.W * in.H
+		if in.Format == "lepton" {
+			frameSize += 640
 		}
-		if strings.Contains(line, "error") {
-			o.Why = "driver: " + line
-			return o
+		hdr := hdrEncode(hdrDesc{ResX: in.W, ResY: in.H, FPS: in.FPS, FrameSize: frameSize, Serial: in.Serial, Brand: "flir", Model: in.Model, Firmware: in.Firmware})
+		raws, _, _ := in.rawFrames()
+		ci := 0
+		send := func(b []byte) {
+			for len(b) > 0 {
+				n := in.Chunks[ci%len(in.Chunks)]
+				ci++
+				if n > len(b) {
+					n = len(b)
+				}
+				conn.Write(b[:n])
+				b = b[n:]
+			}
+		}
+		send(append(hdr, '\n'))
+		for _, r := range raws {
+			send(r)
+			// Pace like a camera: wait until the recorder has read the frame, then a little more.
+			// File names have millisecond resolution; in the field frames are >= 16 ms apart, here
+			// a burst of frames processed within one millisecond would make two recordings share a name.
+			waitDrained(conn)
+			time.Sleep(1500 * time.Microsecond)
+		}
+		conn.Close()
+		for {
+			line, err := d.out.ReadString('\n')
+			if err != nil {
+				return "", "driver died"
+			}
+			if strings.Contains(line, "conn-end") {
+				return strings.TrimSpace(line), ""
+			}
 		}
 	}
-	conn, err := net.Dial("unix", sock)
-	if err != nil {
-		o.Why = err.Error()
+	if in.Prelude != nil {
+		// An earlier connection of the same daemon process from a different camera: nothing of
+		// it may influence the connection under test.  Its files are removed before that starts.
+		pin := *in.Prelude
+		pin.Motion, pin.MinSecs, pin.MaxSecs, pin.PreviewSecs = in.Motion, in.MinSecs, in.MaxSecs, in.PreviewSecs
+		if _, why := session(pin); why != "" {
+			o.Why = "prelude: " + why
+			return o
+		}
+		for _, dd := range []string{out, filepath.Join(out, "constant-recordings")} {
+			fis, _ := ioutil.ReadDir(dd)
+			for _, fi := range fis {
+				if !fi.IsDir() {
+					os.Remove(filepath.Join(dd, fi.Name()))
+				}
+			}
+		}
+		time.Sleep(3 * time.Millisecond)
+	}
+	connErr, why := session(in)
+	if why != "" {
+		o.Why = why
 		return o
 	}
-	frameSize := 2 * in.W * in.H
-	if in.Format == "lepton" {
-		frameSize += 640
-	}
-	hdr := hdrEncode(hdrDesc{ResX: in.W, ResY: in.H, FPS: in.FPS, FrameSize: frameSize, Serial: in.Serial, Brand: "flir", Model: in.Model, Firmware: in.Firmware})
-	raws, ton, lffc := in.rawFrames()
-	ci := 0
-	send := func(b []byte) {
-		for len(b) > 0 {
-			n := in.Chunks[ci%len(in.Chunks)]
-			ci++
-			if n > len(b) {
-				n = len(b)
-			}
-			conn.Write(b[:n])
-			b = b[n:]
-		}
-	}
-	send(append(hdr, '\n'))
-	for _, r := range raws {
-		send(r)
-		// Pace like a camera: wait until the recorder has read the frame, then a little more.
-		// File names have millisecond resolution; in the field frames are >= 16 ms apart, here
-		// a burst of frames processed within one millisecond would make two recordings share a name.
-		waitDrained(conn)
-		time.Sleep(1500 * time.Microsecond)
-	}
-	conn.Close()
-	for {
-		line, err := d.out.ReadString('\n')
-		if err != nil {
-			o.Why = "driver died"
-			return o
-		}
-		if strings.Contains(line, "conn-end") {
-			o.ConnErr = strings.TrimSpace(line)
-			break
-		}
-	}
+	o.ConnErr = connErr
+	_, ton, lffc := in.rawFrames()
 	// what was sent, per accepted-or-not frame index
 	var sentPix [][][]int
 	var tons, lffcs []int
@@ -506,6 +535,24 @@ func waitDrained(conn net.Conn) {
 
 // ---- generator ----
 func e2eGen(rng *rand.Rand, i int) e2eInput {
+	in := e2eGen1(rng, i)
+	if rng.Intn(2) == 0 {
+		// a first connection from another camera (other model / resolution / frame rate) before the one under test
+		for try := 0; try < 20; try++ {
+			p := e2eGen1(rng, i)
+			if p.Model != in.Model {
+				if len(p.Items) > 50 {
+					p.Items = p.Items[:50]
+				}
+				in.Prelude = &p
+				break
+			}
+		}
+	}
+	return in
+}
+
+func e2eGen1(rng *rand.Rand, i int) e2eInput {
 	var in e2eInput
 	in.Format = []string{"lepton", "lepton", "boson"}[rng.Intn(3)]
 	in.Model = "boson"
